@@ -227,6 +227,35 @@ class Ctx:
         self.tlc_runs.append(r)
         return r
 
+    # -- symbolic check with Apalache (complement to TLC: full integer range, real constants) ------------
+    def apalache(self, module: str, inv: str, *, cinit: str | None = None, expect_violation: bool = False, timeout: int = 900):
+        src = next(SPEC.rglob(module + ".tla"), None)
+        if src is None:
+            self.machinery_errors.append(f"apalache module {module} not found")
+            return
+        rundir = self.workdir / f"apa_{module}"
+        rundir.mkdir(parents=True, exist_ok=True)
+        shutil.copy(src, rundir / src.name)
+        cmd = ["apalache-mc", "check", "--init=Init", "--next=Next", f"--inv={inv}", "--length=0", f"--out-dir={rundir / 'out'}"]
+        if cinit:
+            cmd.append(f"--cinit={cinit}")
+        cmd.append(src.name)
+        t0 = time.time()
+        try:
+            p = subprocess.run(cmd, cwd=rundir, capture_output=True, text=True, timeout=timeout)
+            out = p.stdout + p.stderr
+        except subprocess.TimeoutExpired:
+            out = "TIMEOUT"
+        holds = len(re.findall(r"state invariant \d+ holds", out))
+        ok = "The outcome is: NoError" in out
+        viol = "violated" in out and "The outcome is: Error" in out
+        rec = {"module": module, "invariant": inv, "obligations_discharged": holds if ok else 0, "outcome": "NoError" if ok else ("Error" if viol else "unknown"),
+               "expected": "Error" if expect_violation else "NoError", "wall_s": round(time.time() - t0, 1)}
+        self.notes.setdefault("apalache", []).append(rec)
+        if (expect_violation and not viol) or (not expect_violation and not ok):
+            self.machinery_errors.append(f"apalache {module}/{inv}: outcome {rec['outcome']} (expected {rec['expected']})")
+        shutil.rmtree(rundir / "out", ignore_errors=True)
+
     # -- trace validation ----------------------------------------------------------------------
     def validate(
         self,
